@@ -26,7 +26,7 @@ RULE = ("(a third of the cases through fsspec buffered files with block sizes 64
         "(type, rpc class, selection class, number of groups touched) signatures")
 ASSUMPTIONS = ["file objects of the tracing filesystem have independent positions like real files",
                "metadata calls (info/exists) are not reads"]
-REQUIRED_OBS = ["loads_checked", "read_events", "open_logs_checked", "buffered_file_cases", "burst_header_cases", "images_over_128MiB"]
+REQUIRED_OBS = ["loads_checked", "read_events", "open_logs_checked", "buffered_file_cases", "burst_header_cases", "images_over_128MiB", "trees_via_cache"]
 CASE_TIMEOUT = 600
 
 NCASES = {"quick": 160, "thorough": 3000}
@@ -205,10 +205,25 @@ def run_case(i, tier, seed):
         path = f"{root}/{img}"
         size = len(files[img])
         im = refdec.image(files[img])
+        via_cache = i % 5 == 3 and not (i == 1)
+        if via_cache:
+            # the tree used for the loads comes from an index cache written with ANOTHER request size (and the product was
+            # opened through that cache once before): grouping must follow the request size of the current open
+            import shutil
+
+            from vf import cachelib
+
+            other = rng.choice([r for r in harness.rpc_candidates(lines, rng) if min(r, lines) != min(rpc, lines)] or [rpc])
+            harness.open_tree(url, use_cache=False, create_cache=True, records_per_chunk=other)
+            harness.open_tree(url, use_cache=True, records_per_chunk=other)
+            obs["trees_via_cache"] = 1
         tracefs.reset_log()
-        tree = harness.open_tree(url, use_cache=False, records_per_chunk=rpc)
+        tree = harness.open_tree(url, use_cache=via_cache, records_per_chunk=rpc)
         open_log = list(tracefs.LOG)
-        errs = check_open_log(open_log, path, im, rpc, size)
+        if via_cache:
+            errs = [f"image file read at open time although a cache exists: {e[2:]}" for e in open_log if e[0] == "read" and e[1] == path][:2]
+        else:
+            errs = check_open_log(open_log, path, im, rpc, size)
         obs["open_logs_checked"] += 1
         obs["read_events"] += len([e for e in open_log if e[0] == "read"])
         for m in errs:
@@ -292,5 +307,11 @@ def run_case(i, tier, seed):
     finally:
         tracefs.BUFFERED[0] = None
         synth.uninstall(files, root, "vfs")
+        if i % 5 == 3:
+            import shutil
+
+            from vf import cachelib
+
+            shutil.rmtree(cachelib.user_cache_root(), ignore_errors=True)
     return {"sig": sigs, "evals": obs["loads_checked"], "violations": violations, "obs": obs, "sample": sample,
             "nontrivial": obs["loads_with_reads"] > 0}
